@@ -38,6 +38,10 @@ def run(ctx, rep):
     rep.rule("K4", "the returned point is the last x' (rule K4 of C05)", floor=4)
     for nm, level in (("calc_proj_physical", "object"), ("calc_proj_physical_with_var", "var")):
         c05._check_routine(ctx, rep, ix.func(c05.Q + nm), level)
+    rep.rule("P6", "ProjectedLinearEstimator.calc_estimate is calc_estimate_sequence on a one-element sequence, arguments handed on as received",
+             floor=1)
+    from .c09 import check_single_is_sequence_of_one
+    check_single_is_sequence_of_one(ctx, rep, "P6", E + "projected_linear_estimator.ProjectedLinearEstimator")
     _p1(ctx, rep)
     _p2(ctx, rep)
     for name, qn in ALGOS.items():
@@ -176,6 +180,18 @@ def _p2(ctx, rep):
                 rep.violation("P2", f, con, "projection is not built with the template's on_para_eq_constraint (got %s)"
                               % (unparse(flag) if flag is not None else "default"), node=call)
                 continue
+        # every option handed to the projection factory comes from the like-named option field
+        bad_kw = None
+        for k in call.keywords:
+            v = k.value
+            if k.arg and isinstance(v, ast.Attribute) and unparse(v.value) == "option":
+                ok_kw = v.attr == k.arg or (v.attr.startswith(k.arg + "_") and "proj" in v.attr)
+                if not ok_kw:
+                    bad_kw = (k.arg, v.attr)
+        if bad_kw:
+            rep.violation("P2", f, con, "the projection's `%s` is fed from option.%s, which configures something else (the projection's own "
+                          "setting is option.%s_proj_physical / option.%s)" % (bad_kw[0], bad_kw[1], bad_kw[0], bad_kw[0]), node=call)
+            continue
         rep.holds("P2", f, con, "-> %s" % name, node=call)
     if len(seen) != 4:
         rep.violation("P2", f, "dispatch", "only %d of the 4 flag combinations are handled" % len(seen), node=top[0])
